@@ -123,6 +123,11 @@ def strip_comments(text):
     return re.sub(r"--.*", "", text)
 
 
+CO_OWNED = {
+    "C05": (("C10", "node_id_is_hash_of_key"),),
+}
+
+
 def proof_obligations(prop, thorough):
     """Build the property's theorem module, re-check it, audit the axioms of every theorem in it."""
     info = {"module": f"EnrVerif.Props.{prop}", "theorems": [], "failed": []}
@@ -418,7 +423,11 @@ def main():
             results.append(campaign(prop, fam, fam_tier(fam), a.seed, workdir))
 
     def own_props(r):
-        return [(p, l) for (p, l) in r.get("props", []) if l.startswith(f"PROP {prop} ")]
+        # predicates another property's module owns but whose failure is a failing input for this one too
+        # (C05's text includes "has a node id equal to the hash of that public key")
+        co = CO_OWNED.get(prop, ())
+        return [(p, l) for (p, l) in r.get("props", [])
+                if l.startswith(f"PROP {prop} ") or any(l.startswith(f"PROP {q} FAIL pred={pr} ") for (q, pr) in co)]
 
     def own_diffs(r):
         outl = []
@@ -441,7 +450,8 @@ def main():
         pred = tok(line, "pred")
         if pred and block and block[0].startswith("case ") and len(violations) < 3:
             try:
-                block, removed = shrink_case(block, prop, pred, workdir, hbin(path))
+                owner = line.split()[1] if line.startswith("PROP ") and len(line.split()) > 1 else prop
+                block, removed = shrink_case(block, owner, pred, workdir, hbin(path))
             except Exception as ex:  # shrinking is best effort
                 removed = 0
         rp = os.path.join(workdir, f"violation-{n}.case")
